@@ -110,4 +110,4 @@ def replay(path):
 MANIFEST = dict(engine='seq', level='model_checking',
   technique='exhaustive enumeration of operation sequences (depth 3/4) on the real LevelDBStore against an in-memory map model, with reopen/convert transitions and crash images (every journal cut) of the last operation',
   text='Every sequence of 3 (quick) / 4 (thorough, plus 5 over a 12-operation core) operations over 12 stores, 8 range deletions, 6 stable writes and close+reopen as JSON / as protobuf (ConvertToProto) is executed on a fresh LevelDBStore from both initial encodings; after every operation FirstIndex, LastIndex, GetLog of every alphabet index and of never-stored ones (into a dirty raft.Log), the bulk iterator over [0,2^64-1) and over [first,last+1), and Get/GetUint64 of every stable key are compared with plain maps. For all sequences of up to 2 (quick) / 3 (thorough) operations the database directory is copied at every operation boundary and reopened, and the journal bytes appended by the last operation are cut at every byte (grid for the longest sequences): the reopened store must equal the model before or after that operation.',
-  note='Indexes 1,2,3,7,2^40,2^63 so that index keys sort on both sides of the stablestore- keys. protobuf->json reopen, DeleteRange up to 2^64-1, power loss and non-message LogCommand payloads are outside the bounds. Every sequence runs a second time with the accessors called only after the last operation; a second store of the same process must stay untouched; all four reopen transitions.')
+  note='Indexes 1,2,3,7,2^40,2^63 so that index keys sort on both sides of the stablestore- keys. protobuf->json reopen, DeleteRange up to 2^64-1, power loss and non-message LogCommand payloads are outside the bounds. Every sequence runs a second time with the accessors called only after the last operation; a second store of the same process must stay untouched; all four reopen transitions. Length sweep: one DeleteRange over n entries (1..40 and around round numbers up to 4096) at head/middle/tail in both encodings, before and after a reopen.')
